@@ -1,34 +1,51 @@
 // Native replay for Arena::_alloc_oneshot: rebuilds the block chain of the counterexample (current block + followers) in a real
-// asmjit::Arena, calls the real function and walks the chain afterwards. Built with AddressSanitizer: a link to a freed block
-// is a heap-use-after-free report (non-zero exit = reproduced).
+// asmjit::Arena, calls the real function and walks the chain afterwards. malloc/free are interposed (REPLAY_NO_ASAN) so that freed
+// blocks are tracked and an allocation failure can be injected: the scenario is run once with malloc succeeding and once failing.
 #include "replay/common.h"
 #include <asmjit/support/arena.h>
+#include <set>
 using namespace asmjit;
+extern "C" void* __libc_malloc(size_t); extern "C" void __libc_free(void*);
+static bool g_track = false, g_fail_next = false; static void* g_freed[64]; static int g_nfreed = 0;
+extern "C" void* malloc(size_t n) { if (g_track && g_fail_next) { g_fail_next = false; return nullptr; } return __libc_malloc(n); }
+extern "C" void free(void* p) { if (g_track && p) { if (g_nfreed < 64) g_freed[g_nfreed++] = p; return; /* keep the memory: we only record */ } __libc_free(p); }
+static bool was_freed(void* p) { for (int i = 0; i < g_nfreed; i++) if (g_freed[i] == p) return true; return false; }
+
+static int scenario(size_t* sz, unsigned n, size_t req, unsigned shift, bool fail_malloc) {
+  Arena arena(1024);
+  Arena::ManagedBlock* b[3] = {nullptr, nullptr, nullptr};
+  for (unsigned i = 0; i < n; i++) { b[i] = (Arena::ManagedBlock*)__libc_malloc(sizeof(Arena::ManagedBlock) + sz[i]); b[i]->size = sz[i]; b[i]->next = nullptr; }
+  for (unsigned i = 0; i + 1 < n; i++) b[i]->next = b[i + 1];
+  arena._first_block = b[0]; arena._current_block = b[0];
+  arena._ptr = (uint8_t*)b[0] + sizeof(Arena::ManagedBlock) + (sz[0] / 8) * 8;   // current block exhausted: the slow path is taken
+  arena._end = b[0]->data() + sz[0];
+  arena._current_block_size_shift = (uint8_t)shift; arena._min_block_size_shift = 10; arena._max_block_size_shift = 26;
+  g_nfreed = 0; g_track = true; g_fail_next = fail_malloc;
+  void* p = arena._alloc_oneshot(req);
+  g_fail_next = false;
+  printf("  [%s] _alloc_oneshot(%zu) -> %p, %d block(s) freed; chain from the first block:\n", fail_malloc ? "malloc fails" : "malloc ok", req, p, g_nfreed);
+  int bad = 0; unsigned steps = 0; bool seen = false;
+  for (Arena::ManagedBlock* it = arena._first_block; it && steps < 8; steps++) {
+    bool fr = was_freed(it);
+    printf("    block %p%s%s\n", (void*)it, it == arena._current_block ? " (current)" : "", fr ? "  <-- FREED block still linked" : "");
+    if (fr) { bad = 1; break; }
+    if (it == arena._current_block) seen = true;
+    it = it->next;
+  }
+  if (!bad && !seen) { printf("    the current block is not reachable from the first block\n"); bad = 1; }
+  g_track = false;
+  arena._first_block = arena._current_block = const_cast<Arena::ManagedBlock*>(b[0]); b[0]->next = nullptr;   // let the destructor free only b[0]
+  return bad;
+}
 int main(int argc, char** argv) {
   replay_load(argc, argv);
   size_t sz[3] = { (size_t)IN(64, "g_sz[0]"), (size_t)IN(0, "g_sz[1]"), (size_t)IN(0, "g_sz[2]") };
   bool has1 = IN(0, "g_has1") != 0, has2 = IN(0, "g_has2") != 0;
-  size_t req = (size_t)IN(8, "size");
-  unsigned shift = (unsigned)IN(10, "self@._current_block_size_shift");
+  size_t req = (size_t)IN(8, "size"); unsigned shift = (unsigned)IN(10, "self@._current_block_size_shift");
   if (shift < 10 || shift > 26 || req % 8 || req > (1u << 20)) { printf("inputs outside the replay range\n"); return 2; }
-  Arena arena(1024);
-  Arena::ManagedBlock* b[3] = {nullptr, nullptr, nullptr};
   unsigned n = 1 + (has1 ? 1 : 0) + (has1 && has2 ? 1 : 0);
-  for (unsigned i = 0; i < n; i++) { b[i] = (Arena::ManagedBlock*)malloc(sizeof(Arena::ManagedBlock) + sz[i]); b[i]->size = sz[i]; b[i]->next = nullptr; }
-  for (unsigned i = 0; i + 1 < n; i++) b[i]->next = b[i + 1];
-  arena._first_block = b[0]; arena._current_block = b[0];
-  size_t poff = (size_t)IN(sizeof(Arena::ManagedBlock), "ptr_offset");
-  arena._ptr = (uint8_t*)b[0] + sizeof(Arena::ManagedBlock) + (sz[0] / 8) * 8;   // block exhausted: the slow path is taken
-  arena._end = b[0]->data() + sz[0];
-  arena._current_block_size_shift = (uint8_t)shift; arena._min_block_size_shift = 10; arena._max_block_size_shift = 26;
   printf("chain: %u blocks (payloads %zu %zu %zu), request %zu bytes\n", n, sz[0], sz[1], sz[2], req);
-  void* p = arena._alloc_oneshot(req);
-  printf("_alloc_oneshot -> %p; walking the chain from the first block:\n", p);
-  unsigned steps = 0; bool seen = false;
-  for (Arena::ManagedBlock* it = arena._first_block; it && steps < 8; it = it->next, steps++) {   // ASan reports here if a link dangles
-    printf("  block %p size %zu%s\n", (void*)it, it->size, it == arena._current_block ? " (current)" : "");
-    if (it == arena._current_block) seen = true;
-  }
-  if (!seen) { printf("VIOLATED: the current block is not reachable from the first block\n"); return 1; }
-  return 0;
+  int bad = scenario(sz, n, req, shift, false) | scenario(sz, n, req, shift, true);
+  if (bad) printf("VIOLATED: the block chain contains a link to a freed block (use-after-free / double free on the next reset)\n");
+  return bad;
 }
